@@ -32,12 +32,15 @@ type snapHandle struct {
 	// what happened since it was taken
 	laterChange, mstep, round, compact, collClosed, storeClosed bool
 	fileAtOpen                                                 string
+	multi                                                      bool // >= 2 sources at snapshot time
 }
 
 type iterHandle struct {
 	it   moss.Iterator
 	mi   *ModelIter
 	snap int
+	multi bool
+	hard  bool // backward seek / seek after exhaustion / shared-prefix bounds seen
 }
 
 // Hist is the running state of one history case.
@@ -370,6 +373,10 @@ func (h *Hist) step(i int, op Op) {
 		h.iterNext(when, op)
 	case "iterseek":
 		h.iterSeek(when, op)
+	case "itercur":
+		if ih, ok := h.iters[op.ID]; ok {
+			h.compareIter(when, ih, nil)
+		}
 	case "closeiter":
 		if ih, ok := h.iters[op.ID]; ok {
 			ih.it.Close()
